@@ -41,6 +41,7 @@ Methods == {
   M("u_log", "unary", FALSE, "ok", <<>>, "logok"),  M("u_logerr", "unary", FALSE, "ok", <<>>, "lograise"),
   [M("u_badp", "unary", FALSE, "ok", <<>>, "ok") EXCEPT !.badp = TRUE],
   [M("zz_u", "unary", FALSE, "ok", <<>>, "ok") EXCEPT !.known = FALSE],
+  M("__describe__", "unary", FALSE, "ok", <<>>, "ok"),      \* built-in introspection: answered even under a version mismatch
   M("p2", "prod", FALSE, "ok", <<"emit", "emit", "fin">>, "ok"),
   M("p_ef", "prod", FALSE, "ok", <<"emit", "emitfin">>, "ok"),
   M("p_0", "prod", FALSE, "ok", <<"fin">>, "ok"),
@@ -215,7 +216,7 @@ Client == CStart \/ CReadUnary \/ CLeak \/ CReadHeader \/ CTick \/ CClose \/ CCa
 
 \* ========================================================================================== server
 Push(x) == s2c' = Append(s2c, x)
-Rejected(m) == (~m.known) \/ VerMismatch \/ m.badp
+Rejected(m) == (~m.known) \/ (VerMismatch /\ m.n # "__describe__") \/ m.badp
 \* may the client still send an input stream for a call that was rejected before its stream opened?
 StrayAfter(m) == IF ~m.known THEN TRUE ELSE (m.k # "unary" /\ ~m.hdr)
 StepOf(m, k) == IF k <= Len(m.steps) THEN m.steps[k] ELSE IF m.k = "prod" THEN "fin" ELSE "emit"
